@@ -17,7 +17,8 @@ def make_runs(run):
     runs = []
     k = 0
     while len(runs) < n and k < 30 * n:
-        p = RG.make_problem(run.rng, k, repl_mode="identical", flavor=["mixed", "corners", "antiparallel", "stretched"][k % 4], with_terms=True, coeffs=(k % 2 == 0))
+        p = RG.make_problem(run.rng, k, repl_mode="identical", flavor=["mixed", "corners", "antiparallel", "stretched"][k % 4], with_terms=True, coeffs=(k % 2 == 0),
+                            cellkind=({1: "rot-ortho", 4: "mono-yz", 7: "rot-ortho"}.get(k % 9)))
         k += 1
         if p is None:
             continue
